@@ -122,6 +122,73 @@ Section VqeProofs.
     rewrite (bsum_delta_l n i (fun j => (psi i)^* * d j * psi j) Hi). ring.
   Qed.
 
+  (** P = V D V^dagger (D = diag d): the columns of V are eigenvectors, d the eigenvalues *)
+  Definition diagonalises (n : nat) (V : BMx K) (d : bits -> K) (P : BMx K) : Prop :=
+    forall r c, length r = n -> length c = n -> P r c = bsum n (fun k => V r k * d k * (V c k)^*).
+  (** phi = V^dagger psi : the coordinates of psi in the eigenbasis *)
+  Definition vadj (n : nat) (V : BMx K) (psi : vec) : vec := fun k => bsum n (fun i => (V i k)^* * psi i).
+
+  Lemma vadj_conj n V psi k : (vadj n V psi k)^* = bsum n (fun i => V i k * (psi i)^*).
+  Proof.
+    unfold vadj. rewrite bsum_conj. apply bsum_ext; intros i _.
+    rewrite (conj_mul K L), (conj_inv K L). reflexivity.
+  Qed.
+
+  (** for EVERY P that is diagonalised by some V (no assumption on V here): the expectation is the
+      combination of the eigenvalues with the weights |phi_k|^2 *)
+  Theorem quad_eigenbasis n (P V : BMx K) d psi : diagonalises n V d P ->
+    quad n P psi = bsum n (fun k => d k * ((vadj n V psi k)^* * vadj n V psi k)).
+  Proof.
+    intros HP. unfold quad.
+    transitivity (bsum n (fun i => bsum n (fun j => bsum n (fun k =>
+                   d k * ((V i k * (psi i)^*) * ((V j k)^* * psi j)))))).
+    { apply bsum_ext; intros i Hi. apply bsum_ext; intros j Hj.
+      rewrite (HP i j Hi Hj). rewrite <- bsum_scal, <- bsum_scal_r.
+      apply bsum_ext; intros k _. ring. }
+    transitivity (bsum n (fun i => bsum n (fun k => bsum n (fun j =>
+                   d k * ((V i k * (psi i)^*) * ((V j k)^* * psi j)))))).
+    { apply bsum_ext; intros i _.
+      apply (bsum_swap n n (fun j k => d k * ((V i k * (psi i)^*) * ((V j k)^* * psi j)))). }
+    rewrite (bsum_swap n n (fun i k => bsum n (fun j => d k * ((V i k * (psi i)^*) * ((V j k)^* * psi j))))).
+    apply bsum_ext; intros k _. rewrite vadj_conj. unfold vadj.
+    transitivity (bsum n (fun i => (d k * (V i k * (psi i)^*)) * bsum n (fun j => (V j k)^* * psi j))).
+    { apply bsum_ext; intros i _. rewrite <- bsum_scal. apply bsum_ext; intros j _. ring. }
+    rewrite bsum_scal_r.
+    transitivity ((d k * bsum n (fun i => V i k * (psi i)^*)) * bsum n (fun j => (V j k)^* * psi j)); [|ring].
+    f_equal. apply bsum_scal.
+  Qed.
+
+  Lemma norm2_quad_mid n (psi : vec (K:=K)) : norm2 n psi = quad n mid psi.
+  Proof.
+    unfold norm2, quad. apply bsum_ext; intros i Hi. symmetry.
+    transitivity (bsum n (fun j => (if beq i j then 1 else 0) * ((psi i)^* * psi j))).
+    { apply bsum_ext; intros j _. unfold mid. destruct (beq i j); ring. }
+    apply (bsum_delta_l n i (fun j => (psi i)^* * psi j) Hi).
+  Qed.
+
+  (** a unitary change of basis keeps the norm *)
+  Theorem vadj_norm n (V : BMx K) (psi : vec (K:=K)) : unitary n V -> norm2 n (vadj n V psi) = norm2 n psi.
+  Proof.
+    intros [HV _]. rewrite (norm2_quad_mid n psi).
+    assert (D : diagonalises n V (fun _ => 1) mid).
+    { intros r c Hr Hc. rewrite <- (HV r c Hr Hc). unfold mmul, madj.
+      apply bsum_ext; intros k _. ring. }
+    rewrite (quad_eigenbasis n mid V (fun _ => 1) psi D). unfold norm2.
+    apply bsum_ext; intros k _. ring.
+  Qed.
+
+  (** the hypotheses are satisfiable: every diagonal matrix is diagonalised by the identity *)
+  Lemma diagonalises_diag n (d : bits -> K) : diagonalises n mid d (diag_mx d).
+  Proof.
+    intros r c Hr Hc. unfold diag_mx. symmetry.
+    transitivity (bsum n (fun k => (if beq r k then 1 else 0) * (d k * (mid c k)^*))).
+    { apply bsum_ext; intros k _. unfold mid. ring. }
+    rewrite (bsum_delta_l n r (fun k => d k * (mid c k)^*) Hr). unfold mid. rewrite (beq_sym c r).
+    destruct (beq r c) eqn:E.
+    - apply beq_eq in E. subst c. rewrite (conj_1 K L). ring.
+    - rewrite (conj_0 K L). ring.
+  Qed.
+
   (** Pauli operators with Hermitian strings and real weights are Hermitian *)
   Lemma opmatrix_hermitian n (op : list (wstr (K:=K))) :
     Forall (fun w => pherm (fst w) = true /\ (snd w)^* = snd w) op -> hermitian n (opmatrix op).
